@@ -22,7 +22,9 @@ vars == <<cfg, n, tk, sd, sdw, ev>>
 View == <<cfg, n, tk, sd, sdw>>
 (* configurations: workers x (one identifier with MaxTasks calls | all identifiers with MaxTasks - 1 calls) - keeps the LTS small *)
 Shapes == {[ids |-> 1, max |-> MaxTasks], [ids |-> Cardinality(Ids), max |-> MaxTasks - 1]}
-Cfgs == {[workers |-> w, ids |-> sh.ids, max |-> sh.max] : w \in WorkerCounts, sh \in Shapes}
+\* pf = Shutdown is additionally given PanicOnModificationsAfterShutdown: a later ExecuteAt panics instead of returning nil - and
+\* nothing else changes (what was pending still runs or is dropped as the other flags say, the shutdown still completes)
+Cfgs == {[workers |-> w, ids |-> sh.ids, max |-> sh.max, pf |-> f] : w \in WorkerCounts, sh \in Shapes, f \in BOOLEAN}
 Tasks == 1..MaxTasks
 NoTask == <<0, 0, "none">>      \* <<identifier, time, state>> (tuples, not records: ToString(View) must be canonical)
 SSeq(S) == SetToSortSeq(S, <)
@@ -64,7 +66,7 @@ Do(s0) ==
          /\ UNCHANGED cfg /\ n < cfg.max /\ s.id <= cfg.ids /\ n' = n + 1
          /\ IF sd # "no"
               THEN /\ Pending(tk, s.id) = {}          \* (a refused re-schedule of a pending identifier is not exercised)
-                   /\ Finish(s, tk, sd, "refused")
+                   /\ Finish(s, tk, sd, IF cfg.pf THEN "panic" ELSE "refused")
               ELSE LET T0 == [k \in Tasks |-> IF k \in Pending(tk, s.id) THEN [tk[k] EXCEPT ![3] = "out"]       \* replaces the pending task
                                               ELSE IF k = n + 1 THEN <<s.id, s.t, "heap">> ELSE tk[k]]
                    IN Finish(s, T0, sd, "ok")
